@@ -13,7 +13,7 @@ func init() {
 	propFuncs["C12"] = propC12
 	propInfos["C12"] = &PropInfo{
 		Level:   "other",
-		Explain: "Structural necessary conditions decided statically (DESIGN.md §5 C12): engine A — PDF, CDF, Bounds write the receiver's Bandwidth and nothing else, normalizedXs returns fresh memory; the lazy default (Bandwidth==0 → BandwidthScott(Sample), else unchanged); the kernel switch is exhaustive with a panicking default and builds epanechnikovKernel{h}, NormalDist{0,h}, DeltaDist{0}; boundary decision lists of PDF and CDF; the weighted kernel average y(x) = Sum(w·K(x-Xs))/Weight with pdfEach in PDF and cdfEach in CDF (sibling agreement); PDF is the derivative of CDF image by image: for each boundary branch the kernel evaluation points are extracted as affine forms a·x+b with their signs and {(arg, s)}_CDF differentiated ↦ {(arg, s·a)} must equal {(arg, s)}_PDF (including the two image series of the doubly-bounded case with d=2(Max-Min), w=2(x-Min)); Epanechnikov pdf/cdf formulas and d/dx cdf = pdf by polynomial differentiation; BandwidthSilverman/Scott formulas; Bounds' bisection targets 0.005/0.995 on the same bracket, 10% margins and clipping.",
+		Explain: "Structural necessary conditions decided statically (DESIGN.md §5 C12): engine A — PDF, CDF, Bounds write the receiver's Bandwidth and nothing else, normalizedXs returns fresh memory; the lazy default (Bandwidth==0 → BandwidthScott(Sample), else unchanged); the kernel switch is exhaustive with a panicking default and builds epanechnikovKernel{h}, NormalDist{0,h}, DeltaDist{0}; boundary decision lists of PDF and CDF; the weighted kernel average y(x) = Sum(w·K(x-Xs))/Weight with pdfEach in PDF and cdfEach in CDF (sibling agreement); PDF is the derivative of CDF image by image: for each boundary branch the kernel evaluation points are extracted as affine forms a·x+b with their signs and {(arg, s)}_CDF differentiated ↦ {(arg, s·a)} must equal {(arg, s)}_PDF (including the two image series of the doubly-bounded case with d=2(Max-Min), w=2(x-Min)); Epanechnikov pdf/cdf formulas and d/dx cdf = pdf by polynomial differentiation; BandwidthSilverman/Scott formulas; Bounds' bisection targets 0.005/0.995 on the same bracket, 10% margins and clipping. Added after the mutation sweep: CDF's constant term per boundary branch (0; 1 for the upper-bound-only reflection) and Bounds' bracket expansion (low end down while 0.005 < CDF, high end up while CDF < 0.995, by the current width).",
 		Assume:  []string{"A4 reals", "A2"},
 		Undec:   []string{"non-negativity/monotonicity of the computed values", "total mass 1 (convergence of series)", "the 98% content of Bounds", "termination of the bracket expansion"},
 	}
